@@ -1,0 +1,85 @@
+//go:build verif
+
+package dastard
+
+// Verification hooks for the write-control / side-file checks (C06, C20). Build tag "verif" only.
+// Accessors, a constructor for projector matrices, and a scripted stand-in for the core loop that
+// lets the real RPC entry points SourceControl.WriteControl / SetExperimentStateLabel run against a
+// prepared (never started) bench source. No logic of dastard is changed here.
+
+import (
+	"gonum.org/v1/gonum/mat"
+)
+
+// VerifNumberWritten exposes the per-channel counter reported in NUMBERWRITTEN messages.
+func (dp *DataPublisher) VerifNumberWritten() int { return dp.numberWritten }
+
+// VerifSetProjectors gives channel ch a projector matrix (nbases x NSamples) and basis (NSamples x nbases)
+// through the real ConfigureProjectorsBases.
+func (b *VerifBench) VerifSetProjectors(ch, nbases int) error {
+	ds := b.Source()
+	ns := ds.processors[ch].NSamples
+	p := mat.NewDense(nbases, ns, nil)
+	q := mat.NewDense(ns, nbases, nil)
+	for i := 0; i < nbases; i++ {
+		for j := 0; j < ns; j++ {
+			p.Set(i, j, float64(1+i+j))
+			q.Set(j, i, float64(1+2*i+j))
+		}
+	}
+	return ds.ConfigureProjectorsBases(ch, p, q, "verif model")
+}
+
+// VerifRPC is a SourceControl whose active source is the bench source; queued requests are executed
+// one at a time by a goroutine standing in for CoreLoop (which the bench never starts).
+type VerifRPC struct {
+	SC   *SourceControl
+	stop chan struct{}
+}
+
+// VerifNewRPC builds the stand-in. Client updates go to the package's clientMessageChan, which the bench drains.
+func VerifNewRPC(b *VerifBench) *VerifRPC {
+	sc := new(SourceControl)
+	sc.heartbeats = make(chan Heartbeat)
+	sc.queuedRequests = make(chan func())
+	sc.queuedResults = make(chan error)
+	sc.mapServer = newMapServer()
+	sc.mapServer.clientUpdates = clientMessageChan
+	sc.clientUpdates = clientMessageChan
+	sc.triangle = b.TS
+	sc.ActiveSource = b.TS
+	sc.isSourceActive = true
+	sc.status.Running = true
+	sc.status.ChanGroups = make([]GroupIndex, 0)
+	r := &VerifRPC{SC: sc, stop: make(chan struct{})}
+	go func() {
+		for {
+			select {
+			case f := <-sc.queuedRequests:
+				f()
+			case <-r.stop:
+				return
+			}
+		}
+	}()
+	return r
+}
+
+// Close stops the stand-in loop.
+func (r *VerifRPC) Close() { close(r.stop) }
+
+// SetMapPixels loads a pixel map with n entries into the map server (n < 0: no map).
+func (r *VerifRPC) SetMapPixels(n int) {
+	if n < 0 {
+		r.SC.mapServer.Map = nil
+		return
+	}
+	m := &Map{Spacing: 1, Filename: "verif.map", Pixels: make([]Pixel, n)}
+	for i := range m.Pixels {
+		m.Pixels[i] = Pixel{X: i, Y: 2 * i, Name: "px"}
+	}
+	r.SC.mapServer.Map = m
+}
+
+// MapLoaded tells whether the map server currently holds a map.
+func (r *VerifRPC) MapLoaded() bool { return r.SC.mapServer.Map != nil }
